@@ -2,8 +2,10 @@
 
 For every case the real generator is run with the RNG draws recorded (monkeypatched from this process:
 `xgi.generators.{random,uniform}.geometric`, `random.random`, `random.sample`, `np.random.random`,
-`networkx.fast_gnp_random_graph`), the property predicate is evaluated on the generated network, and the recorded
-oracle is replayed through the Lean model (Drivers/C16.lean); node sets and edge lists are compared.
+`np.random.choice`, `networkx.fast_gnp_random_graph`; `uniform_HSBM` as called by `uniform_HPPM` is wrapped to capture
+the tensor), the property predicate is evaluated on the generated network, and the recorded oracle is replayed
+through the Lean model (Drivers/C16.lean); node sets and edge lists (for chung_lu / dcsbm: node order and the edge
+dict in creation order; for the modelled exceptions: the exception class) are compared.
 """
 import glob
 import importlib
@@ -21,6 +23,7 @@ import numpy as np
 
 from ..core import unlisted_violations  # noqa: E402
 from ..core import TRUSTED_COMMON, VERIF, Infra, build_and_audit, canon, finish, jhash, run_driver
+from ..fn import approx_equal
 
 INF = 2 ** 40  # np.inf returned by geometric() is sent to the model as a gap beyond every index bound
 PS = [0.0, 1.0, 0.3, 0.9]
@@ -41,6 +44,7 @@ class Rec:
 
     def __init__(self, force=None):
         self.gaps, self.rands, self.samples, self.nprand, self.graphs = [], [], [], [], []
+        self.npchoice, self.geo_args, self.hsbm_calls = [], [], []
         self.in_geo = False
         # force = None: record the real draws; "ones": geometric() always answers 1; a list: answers these, then +inf
         self.force = force
@@ -52,7 +56,9 @@ class Rec:
         self.saved = [(GS, "_cliques_to_fill", GS._cliques_to_fill), (GS, "find_triangles", GS.find_triangles),
                       (GR, "geometric", GR.geometric), (GU, "geometric", GU.geometric), (pyrandom, "random", pyrandom.random),
                       (pyrandom, "sample", pyrandom.sample), (np.random, "random", np.random.random),
-                      (nx, "fast_gnp_random_graph", nx.fast_gnp_random_graph)]
+                      (nx, "fast_gnp_random_graph", nx.fast_gnp_random_graph), (np.random, "choice", np.random.choice),
+                      (GU, "uniform_HSBM", GU.uniform_HSBM)]
+        orig_choice, orig_hsbm = np.random.choice, GU.uniform_HSBM
         orig_geo = {id(GR): GR.geometric, id(GU): GU.geometric}
         orig_random, orig_sample, orig_np, orig_gnp = pyrandom.random, pyrandom.sample, np.random.random, nx.fast_gnp_random_graph
         rec = self
@@ -64,13 +70,26 @@ class Rec:
                     g = f(p)     # the real draw is always made (keeps the RNG stream and p's validity checks)
                 finally:
                     rec.in_geo = False
-                if rec.force == "ones":
+                if isinstance(g, float) and math.isinf(g):
+                    pass         # geometric(0) is +inf whatever the uniform draw: never overridden
+                elif rec.force == "ones":
                     g = 1
                 elif rec.forced is not None:
                     g = next(rec.forced, float("inf"))
                 rec.gaps.append(g)
+                rec.geo_args.append(p)
                 return g
             return geo
+
+        def npchoice(a, size=None, replace=True, p=None):
+            r = orig_choice(a, size=size, replace=replace, p=p)
+            rec.npchoice.append((list(a) if not isinstance(a, int) else a, size, replace, np.array(r, copy=True)))
+            return r
+
+        def hsbm(n, m, p, sizes, seed=None):
+            # uniform_HPPM reaches uniform_HSBM through its module global: the tensor it hands over is recorded
+            rec.hsbm_calls.append((n, m, np.array(p, dtype=float, copy=True), list(sizes)))
+            return orig_hsbm(n, m, p, sizes, seed=seed)
 
         def rnd():
             r = orig_random()
@@ -103,6 +122,7 @@ class Rec:
         GS._cliques_to_fill, GS.find_triangles = mk_cl(GS._cliques_to_fill), mk_cl(GS.find_triangles)
         GR.geometric, GU.geometric = mk_geo(orig_geo[id(GR)]), mk_geo(orig_geo[id(GU)])
         pyrandom.random, pyrandom.sample, np.random.random, nx.fast_gnp_random_graph = rnd, sample, nprandom, gnp
+        np.random.choice, GU.uniform_HSBM = npchoice, hsbm
         return self
 
     def __exit__(self, *a):
@@ -123,7 +143,7 @@ def _alarm(signum, frame):
     raise Timeout()
 
 
-LAST = {"rec": None}
+LAST = {"rec": None, "boundary": Counter()}
 
 
 def guarded(fn, seconds=2.0, force=None):
@@ -150,6 +170,20 @@ def guarded(fn, seconds=2.0, force=None):
 
 def kind(p):
     return 0 if p == 0 else (1 if p == 1 else 2)
+
+
+def frac(x):
+    """a Python number as the exact rational it denotes: [numerator, denominator]"""
+    from fractions import Fraction
+    q = Fraction(x)
+    return [q.numerator, q.denominator]
+
+
+def bip_snapshot(H):
+    """nodes in view order, edge dict in creation order (id, sorted members)"""
+    return {"nodes": sorted(int(n) for n in H.nodes), "node_list": [int(n) for n in H.nodes],
+            "edges": [sorted(int(x) for x in e) for e in H.edges.members()],
+            "edge_dict": [[int(i), sorted(int(x) for x in H.edges.members(i))] for i in H.edges]}
 
 
 def snapshot(H):
@@ -299,8 +333,27 @@ def run_case(case):
         n, m, p, multi, ptype = a["n"], a["m"], a["p"], a["multiedges"], a.get("p_type", "prob")
         H, ex, rec = guarded(lambda: xgi.uniform_erdos_renyi_hypergraph(n, m, p, p_type=ptype, multiedges=multi, seed=seed),
                              force=case.get("force"))
+        if ptype == "degree":
+            req = {"f": "uniform_erdos_renyi_degree", "n": n, "m": m, "p": frac(p), "multi": bool(multi), "gaps": rec.gap_list()}
+            from fractions import Fraction
+            den0 = m * n ** (m - 1) if multi else m * math.comb(n, m)
+            if den0 != 0:
+                # the branch (q == 0, q == 1, q > 1) as the code's float arithmetic takes it vs exact arithmetic on the same inputs
+                qf = p / den0 if multi else p * n / (m * float(math.comb(n, m)))
+                qe = Fraction(p) / den0 if multi else Fraction(p) * n / den0
+                if (qf == 0, qf == 1, qf > 1) != (qe == 0, qe == 1, qe > 1):
+                    req = None
+                    LAST["boundary"]["float-boundary:uniform_erdos_renyi_degree"] += 1
         if ex is not None:
-            if not (ptype == "degree" and type(ex).__name__ == "XGIError"):   # mean degree that gives q > 1: rejected
+            if ptype == "degree":
+                from fractions import Fraction
+                den = m * n ** (m - 1) if multi else m * math.comb(n, m)
+                # a mean degree that needs q > 1 (or an impossible one: no possible edge) is rejected; n = 0 divides by zero
+                expected = ("XGIError" if den != 0 and Fraction(p) * (1 if multi else n) / den > 1 else
+                            "ZeroDivisionError" if den == 0 and multi else "XGIError" if den == 0 and p * n != 0 else None)
+                if type(ex).__name__ != expected:
+                    fails.append(("raises", repr(ex)[:200]))
+            else:
                 fails.append(("p1-raises" if p == 1 else "raises", repr(ex)[:200]))
             return out(None, ex)
         snap = snapshot(H)
@@ -308,6 +361,18 @@ def run_case(case):
         if not multi:
             fails += pred_nodup(H, snap)
         fails += pred_forced(case, snap, n, m, math.factorial(m) if multi else 1)
+        if ptype == "degree":
+            from fractions import Fraction
+            den = m * n ** (m - 1) if multi else m * math.comb(n, m)
+            if den != 0:
+                qq = Fraction(p) / den if multi else Fraction(p) * n / den
+                if qq > 1:
+                    fails.append(("degree-q-above-1-accepted", f"mean degree {p} needs q = {qq} > 1 but a network was returned"))
+                snap["q"] = float(qq)
+                if rec.geo_args and not (abs(float(rec.geo_args[0]) - float(qq)) <= 1e-12):
+                    fails.append(("degree-conversion", f"wiring probability {rec.geo_args[0]!r} used, mean degree {p} gives {qq}"))
+                if not multi:
+                    fails += pred_orders(snap, n, [(m, float(qq))] if qq in (0, 1) else [])
         if ptype == "prob":
             if multi and p == 1:
                 want = Counter({tuple(e): math.factorial(m) for e in all_subsets(range(n), m)})
@@ -354,15 +419,53 @@ def run_case(case):
     if f == "uniform_HPPM":
         n, m, k, eps, rho = a["n"], a["m"], a["k"], a["epsilon"], a["rho"]
         H, ex, rec = guarded(lambda: xgi.uniform_HPPM(n, m, k, eps, rho, seed=seed))
+        req = {"f": f, "n": n, "m": m, "k": frac(k), "epsilon": frac(eps), "rho": frac(rho), "gaps": rec.gap_list()}
+        from fractions import Fraction
+        K, E, R = Fraction(k), Fraction(eps), Fraction(rho)
+        valid = 0 <= R <= 1 and K >= 0 and 0 <= E <= 1
+        den = m * n ** (m - 1)
+        if valid and den != 0:
+            pp = K / den
+            p_in, p_out = (1 + (1 / (R ** m + (1 - R) ** m) - 1) * E) * pp, (1 - E) * pp
+            # the planted-partition tensor the parameters promise (exact), compared with what uniform_HSBM received
+            if rec.hsbm_calls:
+                _, _, T, sz = rec.hsbm_calls[0]
+                want_sz = [int(R * n), n - int(R * n)]
+                if [int(x) for x in sz] != want_sz:
+                    fails.append(("hppm-sizes", f"community sizes {sz}, expected {want_sz}"))
+                for block in itertools.product(range(2), repeat=m):
+                    w = p_in if len(set(block)) == 1 else p_out
+                    if T.shape != (2,) * m or abs(float(T[block]) - float(w)) > 1e-9 * max(1.0, float(w)):
+                        fails.append(("hppm-tensor", f"block {block}: probability {T[block] if T.shape == (2,) * m else T.shape}, expected {float(w)}"))
+                        break
+            elif ex is None:
+                fails.append(("hppm-tensor", "uniform_HSBM was not called"))
         if ex is not None:
-            if type(ex).__name__ != "XGIError":
-                pp = k / (m * n ** (m - 1))
-                rr = 1 / (rho ** m + (1 - rho) ** m) - 1
-                one = (1 + rr * eps) * pp == 1 or (1 - eps) * pp == 1     # the tensor handed to uniform_HSBM has an entry == 1
+            expected = None
+            if not valid:
+                expected = "XGIError"
+            elif den == 0:
+                expected = "ZeroDivisionError"
+            elif p_in > 1 or p_out > 1:
+                expected = "XGIError"
+            if type(ex).__name__ != expected:
+                one = valid and den != 0 and (p_in == 1 or p_out == 1)
                 fails.append(("p1-raises" if one else "raises", repr(ex)[:200]))
             return out(None, ex)
         snap = snapshot(H)
         fails += pred_common(H, snap, range(n)) + pred_sizes(snap, {m}, "size-not-m")
+        if not valid or den == 0 or p_in > 1:
+            fails.append(("invalid-accepted", "parameters outside the documented range were accepted"))
+        elif E == 1 or K == 0:
+            n0 = int(R * n)
+            mixed = [e for e in snap["edges"] if len({x < n0 for x in e}) == 2]
+            if mixed:
+                fails.append(("p0-has-edges", f"epsilon = 1 (p_out = 0) but edge {mixed[0]} joins the two communities"))
+            if K == 0 and snap["edges"]:
+                fails.append(("p0-has-edges", "mean degree 0 but edges were generated"))
+        if rec.hsbm_calls:
+            snap["tensor"] = [float(x) for x in rec.hsbm_calls[0][2].flatten()]
+            snap["sizes"] = [int(x) for x in rec.hsbm_calls[0][3]]
         return out(snap, None)
 
     if f == "complete_hypergraph":
@@ -414,32 +517,113 @@ def run_case(case):
         k1 = {int(i): int(d) for i, d in a["k1"]}
         k2 = {int(i): int(d) for i, d in a["k2"]}
         if f == "chung_lu_hypergraph":
-            H, ex, rec = guarded(lambda: xgi.chung_lu_hypergraph(k1, k2, seed=seed))
+            H, ex, rec = guarded(lambda: xgi.chung_lu_hypergraph(dict(k1), dict(k2), seed=seed), force=case.get("force"))
+            req = {"f": f, "k1": a["k1"], "k2": a["k2"]}
         else:
             g1 = {int(i): int(g) for i, g in a["g1"]}
             g2 = {int(i): int(g) for i, g in a["g2"]}
-            H, ex, rec = guarded(lambda: xgi.dcsbm_hypergraph(k1, k2, g1, g2, np.array(a["omega"]), seed=seed))
+            om = np.array(a["omega"])
+            H, ex, rec = guarded(lambda: xgi.dcsbm_hypergraph(dict(k1), dict(k2), dict(g1), dict(g2), om, seed=seed),
+                                 force=case.get("force"))
+            req = {"f": f, "k1": a["k1"], "k2": a["k2"], "g1": a["g1"], "g2": a["g2"], "omega": a["omega"]}
+        req["gaps"] = rec.gap_list()
+        req["rs"] = [frac(r) for r in rec.rands]
+        if f == "dcsbm_hypergraph":
+            # the model's probabilities are exact; the code computes k1[u] * k2[v] * (omega / (kappa1 * kappa2)) in binary floating
+            # point.  Where the two disagree on the clipping branch `p == 1` (e.g. 49 * (1 / 49) = 0.9999999999999999) the code
+            # draws a geometric gap that the exact model does not: such inputs are outside the model (counted, predicate only).
+            from fractions import Fraction
+            ka, kb = Counter(), Counter()
+            for i, gg in g1.items():
+                ka[gg] += k1.get(i, 0)
+            for i, gg in g2.items():
+                kb[gg] += k2.get(i, 0)
+            for u in k1:
+                for v in k2:
+                    if u in g1 and v in g2 and ka[g1[u]] * kb[g2[v]] != 0:
+                        den = ka[g1[u]] * kb[g2[v]]
+                        fl = k1[u] * k2[v] * (int(om[g1[u], g2[v]]) / den)
+                        if (fl >= 1) != (Fraction(k1[u] * k2[v] * int(om[g1[u], g2[v]]), den) >= 1):
+                            req = None
+            if req is None:
+                LAST["boundary"]["float-boundary:dcsbm_hypergraph"] += 1
+        S = sum(k1.values())
         if ex is not None:
-            fails.append(("raises", repr(ex)[:200]))
+            # documented inputs are degree / size sequences with a positive sum; on an all-zero degree sequence chung_lu
+            # divides by S = 0, and with no edge label at all it indexes an empty list (both modelled as they are)
+            expected = None
+            if f == "chung_lu_hypergraph" and k1:
+                expected = "IndexError" if not k2 else ("ZeroDivisionError" if S == 0 else None)
+            if type(ex).__name__ != expected:
+                fails.append(("raises", repr(ex)[:200]))
             return out(None, ex)
-        snap = snapshot(H)
+        snap = bip_snapshot(H)
         fails += pred_common(H, snap, k1.keys())
         if not set(H.edges) <= set(k2):
             fails.append(("edge-id-not-requested", f"edge ids {list(H.edges)} not among {list(k2)}"))
-        deg = H.nodes.degree.asdict()
-        if any(deg[i] > len(k2) for i in deg):
-            fails.append(("degree-exceeded", "a node belongs to more edges than exist"))
+        mem = {int(i): set(int(x) for x in H.edges.members(i)) for i in H.edges}
+        for v, ms in mem.items():
+            if v not in k2:
+                continue
+            zero = [u for u in ms if u in k1 and k1[u] * k2[v] == 0]
+            if zero:
+                fails.append(("zero-degree-incidence", f"node {zero[0]} (degree {k1[zero[0]]}) joined edge {v} (size {k2[v]})"))
+                break
+            if f == "dcsbm_hypergraph":
+                bad = [u for u in ms if u in g1 and om[g1[u], g2[v]] == 0]
+                if bad:
+                    fails.append(("omega-zero-incidence", f"node {bad[0]} (group {g1[bad[0]]}) joined edge {v} (group {g2[v]}) but omega is 0"))
+                    break
+        if f == "chung_lu_hypergraph" and S > 0:
+            for u in k1:
+                if all(k1[u] * k2[v] >= S for v in k2) and any(u not in mem.get(v, ()) for v in k2):
+                    fails.append(("saturated-node-missing", f"node {u}: k1[u]*k2[v] >= S for every edge, yet it is not in every edge"))
+                    break
         return out(snap, None)
 
     if f == "watts_strogatz_hypergraph":
         n, d, k, l, p = a["n"], a["d"], a["k"], a["l"], a["p"]
         H, ex, rec = guarded(lambda: xgi.watts_strogatz_hypergraph(n, d, k, l, p, seed=seed))
+        coins = [bool(float(x) < p) for x in rec.nprand]
+        choices = [[int(x) for x in np.atleast_1d(c[3])] for c in rec.npchoice]
+        req = {"f": f, "n": n, "d": d, "k": k, "l": l, "coins": coins, "choices": choices}
+        E = n * (k // 2)
         if ex is not None:
-            fails.append(("raises", repr(ex)[:200]))
+            # d > n: no d distinct nodes exist, np.random.choice refuses (ValueError) as soon as a coin fires
+            if not (d > n and type(ex).__name__ == "ValueError" and any(coins)):
+                fails.append(("raises", repr(ex)[:200]))
             return out(None, ex)
         snap = snapshot(H)
+        ids = [int(i) for i in H.edges]
         fails += pred_common(H, snap, range(n))
-        if l + k // 2 + d - 1 <= n:   # the ring lattice it starts from is d-uniform; rewiring must keep the edge size
+        if len(snap["edges"]) != E:
+            fails.append(("edge-count", f"{len(snap['edges'])} edges, the ring lattice has n*(k//2) = {E}"))
+        if len(coins) != E:
+            fails.append(("edge-count", f"{len(coins)} coins for {E} lattice edges"))
+        fired = [i for i, c in enumerate(coins) if c]
+        # removed edges are exactly those whose coin fired; as many new edges (fresh ids) as removed ones
+        if ids != [i for i in range(E) if i not in set(fired)] + list(range(E, E + len(fired))):
+            fails.append(("rewired-ids", f"edge ids {ids} but coins fired for {fired} of {E} lattice edges"))
+        with warnings.catch_warnings():
+            warnings.simplefilter("ignore")
+            L = xgi.ring_lattice(n, d, k, l)
+        lat = {int(i): sorted(int(x) for x in L.edges.members(i)) for i in L.edges}
+        for i, e in zip(ids, snap["edges"]):
+            if i < E and e != lat.get(i):
+                fails.append(("kept-edge-changed", f"edge {i} is {e}, the lattice edge is {lat.get(i)}"))
+                break
+        for t, e in enumerate(snap["edges"][len(snap["edges"]) - len(fired):] if fired else []):
+            if len(e) != d:
+                fails.append(("size-not-d", f"rewired edge {e} has {len(e)} distinct nodes, d = {d}"))
+                break
+            if t < len(fired) and min(lat[fired[t]]) not in e:
+                fails.append(("rewired-lost-anchor", f"rewired edge {e} does not contain the smallest node of lattice edge {lat[fired[t]]}"))
+                break
+        if p == 0 and (ids != list(range(E)) or snap["edges"] != [lat[i] for i in range(E)]):
+            fails.append(("p0-not-lattice", "p = 0 but the result is not the ring lattice"))
+        if p >= 1 and any(i < E for i in ids):
+            fails.append(("p1-incomplete", "p = 1 but a lattice edge was not rewired"))
+        if d >= 1 and l + k // 2 + d - 1 <= n:   # the ring lattice it starts from is d-uniform; rewiring must keep the edge size
             fails += pred_sizes(snap, {d}, "size-not-d")
         fails += pred_sizes(snap, set(range(1, d + 1)))
         return out(snap, None)
@@ -495,7 +679,13 @@ def run_case(case):
 
     if f == "trivial_hypergraph":
         n = a["n"]
-        H, ex, rec = guarded(lambda: xgi.trivial_hypergraph(n) if n >= 0 else xgi.empty_hypergraph())
+        cu = a.get("create_using")     # None | "class" | "instance" (a non-empty hypergraph that must be cleared)
+        kw = {}
+        if cu == "class":
+            kw["create_using"] = xgi.Hypergraph
+        elif cu == "instance":
+            kw["create_using"] = xgi.Hypergraph([[7, 8], [8, 9, 10]])
+        H, ex, rec = guarded(lambda: xgi.trivial_hypergraph(n, **kw) if n >= 0 else xgi.empty_hypergraph(**kw))
         if ex is not None:
             fails.append(("raises", repr(ex)[:200]))
             return out(None, ex)
@@ -503,8 +693,21 @@ def run_case(case):
         fails += pred_common(H, snap, range(max(n, 0)))
         if snap["edges"]:
             fails.append(("p0-has-edges", "trivial/empty hypergraph has edges"))
+        if not isinstance(H, xgi.Hypergraph):
+            fails.append(("wrong-class", type(H).__name__))
         req = {"f": f, "n": max(n, 0)}
         return out(snap, None)
+
+    if f in ("empty_dihypergraph", "empty_simplicial_complex"):
+        cls = xgi.DiHypergraph if f == "empty_dihypergraph" else xgi.SimplicialComplex
+        H, ex, rec = guarded(lambda: getattr(xgi, f)())
+        if ex is not None:
+            fails.append(("raises", repr(ex)[:200]))
+            return out(None, ex)
+        if not isinstance(H, cls) or len(H.nodes) != 0 or len(H.edges) != 0:
+            fails.append(("not-empty", f"{type(H).__name__} with {len(H.nodes)} nodes and {len(H.edges)} edges"))
+        req = {"f": "trivial_hypergraph", "n": 0}
+        return out({"nodes": [int(x) for x in H.nodes], "node_list": [int(x) for x in H.nodes], "edges": [list(e) for e in H.edges.members()]}, None)
 
     if f == "random_simplicial_complex":
         n, ps = a["n"], a["ps"]
@@ -716,9 +919,17 @@ def gen_cases(ctx, scale=1):
                         continue
                     for s in seeds(2 if q else 15):
                         add("uniform_erdos_renyi_hypergraph", {"n": n, "m": m, "p": p, "multiedges": multi}, s)
-            for s in seeds(1):
-                add("uniform_erdos_renyi_hypergraph", {"n": n, "m": m, "p": rng.choice([0, 0.5, 1.5, 3]), "multiedges": rng.random() < 0.5,
-                                                       "p_type": "degree"}, s)
+            for s in seeds(2 if q else 10):
+                # mean degree -> wiring probability: 0, exactly 1 (p = m*C(n,m)/n resp. m*n**(m-1)), above 1 (rejected), in between
+                multi = rng.random() < 0.5
+                top = m * n ** (m - 1) if multi else (m * math.comb(n, m) / n)
+                pd = rng.choice([0, 0.5, 1.5, 3, top, top / 2, top * 2, 0.25])
+                if multi and n ** m > 5000:
+                    continue
+                add("uniform_erdos_renyi_hypergraph", {"n": n, "m": m, "p": pd, "multiedges": multi, "p_type": "degree"}, s)
+    for m in range(1, 4):
+        for multi in (False, True):
+            add("uniform_erdos_renyi_hypergraph", {"n": 0, "m": m, "p": rng.choice([0, 1.5]), "multiedges": multi, "p_type": "degree"}, 1)
 
     # forced gap oracles: the boundary indices of the skip-sampling loops, deterministically
     for n in range(1, ctx.n(7, 9)):
@@ -749,10 +960,11 @@ def gen_cases(ctx, scale=1):
         vals = [1.0] if mode < 0.1 else ([0.0, 1.0] if mode < 0.25 else (PS if mode < 0.6 else [0.0, 0.3, 0.9]))
         p = np.array([rng.choice(vals) for _ in range(nb ** m)]).reshape([nb] * m)
         add("uniform_HSBM", {"m": m, "sizes": sizes, "p": p.tolist()}, rng.randrange(10 ** 6))
-    for _ in range(ctx.n(20, 200) * scale):
-        n, m = rng.randint(2, 8), rng.choice([2, 3])
-        add("uniform_HPPM", {"n": n, "m": m, "k": rng.choice([0, 1, 2, 3]), "epsilon": rng.choice([0, 0.5, 0.9, 1]),
-                             "rho": rng.choice([0.5, 0.3, 0, 1])}, rng.randrange(10 ** 6))
+    for _ in range(ctx.n(150, 3000) * scale):
+        n, m = rng.randint(0, 8), rng.choice([1, 2, 2, 3])
+        kk = rng.choice([0, 1, 2, 3, 0.5, 2.5, 6, -1, m * n ** (m - 1), m * n ** (m - 1) / 2])
+        add("uniform_HPPM", {"n": n, "m": m, "k": kk, "epsilon": rng.choice([0, 0.5, 0.9, 1, 1, 0.25, 1.5]),
+                             "rho": rng.choice([0.5, 0.5, 0.3, 0.25, 0, 1, 0.75, -0.5])}, rng.randrange(10 ** 6))
 
     # complete_hypergraph
     for n in range(0, ctx.n(7, 8)):
@@ -771,20 +983,50 @@ def gen_cases(ctx, scale=1):
         k = [[i, rng.randint(0, 4)] for i in ids]
         add("uniform_hypergraph_configuration_model", {"k": k, "m": m}, rng.randrange(10 ** 6))
 
-    # chung_lu / dcsbm (structure only)
-    for _ in range(ctx.n(150, 5000) * scale):
-        nn, ne = rng.randint(1, 7), rng.randint(1, 6)
+    # chung_lu / dcsbm: degree / size sequences incl. zero entries, all-zero sequences, saturated products (p clipped to 1),
+    # non-contiguous ids, communities with omega = 0 and with zero total degree
+    for _ in range(ctx.n(250, 6000) * scale):
+        nn, ne = rng.randint(0 if rng.random() < 0.05 else 1, 7), rng.randint(0 if rng.random() < 0.05 else 1, 6)
+        hi = rng.choice([2, 4, 4, 9])
+        ids1 = rng.sample(range(0, 15), nn) if rng.random() < 0.3 else list(range(nn))
+        ids2 = rng.sample(range(0, 15), ne) if rng.random() < 0.3 else list(range(ne))
+        k1 = [[i, rng.randint(0, hi)] for i in ids1]
+        k2 = [[j, rng.randint(0, hi)] for j in ids2]
+        r = rng.random()
+        if r < 0.06:
+            k1 = [[i, 0] for i, _ in k1]
+        elif r < 0.1:
+            k2 = [[j, 0] for j, _ in k2]
+        elif r < 0.3 and k1 and k2:
+            k1[rng.randrange(nn)][1] = sum(d for _, d in k1) + 3     # this node's product with every positive size is >= S
+        add("chung_lu_hypergraph", {"k1": k1, "k2": k2}, rng.randrange(10 ** 6))
+        ng = rng.choice([1, 2, 2, 3])
+        g1 = [[i, rng.randint(0, ng - 1)] for i in ids1]
+        g2 = [[j, rng.randint(0, ng - 1)] for j in ids2]
+        omega = [[rng.choice([0, 0, 1, 3, 6, 12, 40]) for _ in range(ng)] for _ in range(ng)]
+        add("dcsbm_hypergraph", {"k1": k1, "k2": k2, "g1": g1, "g2": g2, "omega": omega}, rng.randrange(10 ** 6))
+    # forced gap oracles: every geometric() answers 1 (each label after position j is passed over) / a fixed pattern
+    for _ in range(ctx.n(30, 400) * scale):
+        nn, ne = rng.randint(1, 5), rng.randint(1, 6)
         k1 = [[i, rng.randint(0, 4)] for i in range(nn)]
         k2 = [[j, rng.randint(0, 4)] for j in range(ne)]
-        if sum(d for _, d in k1) == 0:
-            k1[0][1] = 1
-        if sum(d for _, d in k2) == 0:
-            k2[0][1] = 1
-        add("chung_lu_hypergraph", {"k1": k1, "k2": k2}, rng.randrange(10 ** 6))
+        force = rng.choice(["ones", [rng.randint(1, 3) for _ in range(40)]])
+        cases.append({"f": "chung_lu_hypergraph", "args": {"k1": k1, "k2": k2}, "seed": rng.randrange(10 ** 6), "force": force})
         g1 = [[i, rng.randint(0, 1)] for i in range(nn)]
         g2 = [[j, rng.randint(0, 1)] for j in range(ne)]
-        omega = [[rng.randint(0, 6), rng.randint(0, 6)], [rng.randint(0, 6), rng.randint(0, 6)]]
-        add("dcsbm_hypergraph", {"k1": k1, "k2": k2, "g1": g1, "g2": g2, "omega": omega}, rng.randrange(10 ** 6))
+        omega = [[rng.choice([0, 1, 3, 6]) for _ in range(2)] for _ in range(2)]
+        cases.append({"f": "dcsbm_hypergraph", "args": {"k1": k1, "k2": k2, "g1": g1, "g2": g2, "omega": omega},
+                      "seed": rng.randrange(10 ** 6), "force": force})
+
+    # watts_strogatz: the whole lattice grid (uniform and wrap-around lattices, d = 1, d > n) x p x seeds
+    for n in range(0, ctx.n(8, 10)):
+        for d in range(1, 6):
+            for k in (0, 2, 3, 4, 6):
+                for l in (0, 1, 2, 3):
+                    for _ in range(1 if q else 6):
+                        if q and rng.random() < 0.6:
+                            continue
+                        add("watts_strogatz_hypergraph", {"n": n, "d": d, "k": k, "l": l, "p": rng.choice([0, 0.3, 0.7, 1])}, rng.randrange(10 ** 6))
 
     # lattice / simple / classic
     for n in range(0, ctx.n(8, 10)):
@@ -794,8 +1036,6 @@ def gen_cases(ctx, scale=1):
                     if q and rng.random() < 0.5:
                         continue
                     add("ring_lattice", {"n": n, "d": d, "k": k, "l": l})
-                    if d >= 2 and l + k // 2 + d - 1 <= n and rng.random() < 0.6:   # parameters for which the lattice is d-uniform
-                        add("watts_strogatz_hypergraph", {"n": n, "d": d, "k": k, "l": l, "p": rng.choice([0, 0.3, 1])}, rng.randrange(10 ** 6))
     for l in range(0, 5):
         for c in range(0, 4):
             for m in range(max(c, 1), c + 4):
@@ -807,7 +1047,10 @@ def gen_cases(ctx, scale=1):
             for dm in range(0, nc):
                 add("star_clique", {"n_star": ns, "n_clique": nc, "d_max": dm})
     for n in range(-1, 6):
-        add("trivial_hypergraph", {"n": n})
+        for cu in (None, "class", "instance"):
+            add("trivial_hypergraph", {"n": n, "create_using": cu})
+    add("empty_dihypergraph", {})
+    add("empty_simplicial_complex", {})
 
     # simplicial complexes
     for n in range(0, ctx.n(6, 7)):
@@ -838,6 +1081,10 @@ def corpus_cases():
 
 # ------------------------------------------------------------------------------------------- run
 
+# generators whose exceptions are part of the model (the model must answer the same exception class)
+ERR_MODELLED = {"watts_strogatz_hypergraph", "chung_lu_hypergraph", "dcsbm_hypergraph", "uniform_HPPM", "uniform_erdos_renyi_degree"}
+
+
 def nontrivial(snap):
     return isinstance(snap, dict) and any(len(e) >= 2 for e in snap.get("edges", []))
 
@@ -861,7 +1108,7 @@ def evaluate(ctx, cases, reqs, expect):
             if any(not (g >= 1) for g in rec.gaps):
                 ctx.violation("geometric", "gap-below-one", case, detail=f"geometric() returned {[g for g in rec.gaps if not g >= 1][:3]}")
         ctx.sample({"case": case, "impl": {k: v for k, v in impl.items() if k != "node_list"}}, cap=3)
-        if r["req"] is not None and "out" not in impl:
+        if r["req"] is not None and ("out" not in impl or (r["req"]["f"] in ERR_MODELLED and impl["out"] != "err:Timeout")):
             reqs.append(r["req"])
             expect.append((case, impl, r["ordered"]))
 
@@ -884,11 +1131,26 @@ def compare(ctx, reqs, expect):
         mc = canon(m)
         if req["f"].startswith("decode_"):
             same = mc.get("all") == impl["all"] and mc.get("ref") == impl["ref"] and mc.get("count") == impl["count"]
+        elif "out" in impl or "out" in mc:
+            same = mc.get("out") == impl.get("out")      # the same exception class
+        elif req["f"] in ("chung_lu_hypergraph", "dcsbm_hypergraph"):
+            # node order (= stable sort by decreasing degree), edge dict in creation order, all draws consumed
+            same = mc["nodes"] == impl["node_list"] and mc["edges"] == impl["edge_dict"] and mc["rest"] == 0
         else:
             me, ie = mc["edges"], impl["edges"]
             if not ordered:
                 me, ie = sorted(me), sorted(ie)
             same = sorted(mc["nodes"]) == impl["nodes"] and me == ie and mc.get("rest", 0) == 0 and req.get("extra", 0) == 0
+            if req["f"] == "uniform_HPPM":
+                T = impl.get("tensor", [])
+                vals = len(T) == len(mc["tensor"]) and all(approx_equal(x, q) for x, q in zip(T, mc["tensor"])) and impl.get("sizes") == mc["sizes"]
+                if vals and [kind(x) for x in T] != mc["pks"]:
+                    # a float that rounds to exactly 0 / 1 where the exact value does not (or vice versa): the branch taken differs
+                    ctx.stats["float-boundary:uniform_HPPM"] += 1
+                    continue
+                same = same and vals
+            if req["f"] == "uniform_erdos_renyi_degree" and "q" in impl:
+                same = same and mc.get("q") is not None and approx_equal(impl["q"], mc["q"])
         if not same:
             dis.append((case, impl, mc, "outputs differ"))
     for case, impl, mc, why in dis:
@@ -906,8 +1168,10 @@ def compare(ctx, reqs, expect):
 def run(ctx):
     ok = build_and_audit(ctx, "XgiModel.Props.C16", ["XgiModel.C16.Drive"])
     ctx.rule = ("decoders: every (n, m) / size list up to the bound, all indices; generators: parameter grids (n<=8, m<=4, "
-                "orders 0..4, p in {0, 1, 0.3, 0.9} plus boundary values, degree/size sequences, block sizes, random graphs "
-                "on <=7 nodes) x seeds drawn from VERIF_SEED, RNG draws recorded and replayed through the model; "
+                "orders 0..4, p in {0, 1, 0.3, 0.9} plus boundary values, degree/size sequences incl. zero / all-zero / saturating "
+                "entries, communities and omega matrices with zero blocks, block sizes, mean degrees incl. the ones giving q = 0, 1, > 1, "
+                "HPPM (k, epsilon, rho) incl. out-of-range values, the whole (n, d, k, l) lattice grid x p in {0, .3, .7, 1}, random graphs "
+                "on <=7 nodes) x seeds drawn from VERIF_SEED, RNG draws recorded (or forced) and replayed through the model; "
                 "non-trivial = distinct generated network with an edge of >= 2 nodes")
     reqs, expect = [], []
     # decoders: exhaustive small scope, model vs helpers vs itertools
@@ -929,6 +1193,9 @@ def run(ctx):
     evaluate(ctx, corpus_cases(), reqs, expect)
     evaluate(ctx, gen_cases(ctx), reqs, expect)
     dis = compare(ctx, reqs, expect)
+    for kk, vv in LAST["boundary"].items():
+        ctx.stats[kk] += vv
+    LAST["boundary"].clear()
     if (dis or not ok) and not [v for v in ctx.violations if v["kind"] == "concrete"]:
         # search harder on the implementation: the predicate on many more seeds of the generators involved
         more = gen_cases(ctx, scale=4)
@@ -943,15 +1210,24 @@ def run(ctx):
         "node labels are range(n) (or the integer keys of the degree dict); probabilities enter the model only through the "
         "branch taken (== 0, == 1, otherwise) and through the recorded draws",
         "geometric(p) >= 1 for every draw (checked on every recorded draw, including p = 1e-18, 1-1e-16); np.inf is replayed as 2**40",
-        "uniform_HSBM is modelled with proposed_fixes/C16-hsbm-p1.diff applied and sunflower with proposed_fixes/C16-sunflower-core-only.diff "
-        "(known findings until the fixes are applied)",
+        "uniform_HSBM (probability-1 block), sunflower (m == c) and watts_strogatz_hypergraph (rewiring without replacement) are modelled as "
+        "fixed in /repo (37b746a, d851a3b, 8f2dbb9)",
         "itertools.combinations/product, scipy.special.comb, np.prod, networkx.enumerate_all_cliques/fast_gnp_random_graph appear as the pure "
         "functions they are documented to be; SimplicialComplex.add_simplices_from as face closure (C03)",
         "index values below 2**53 (np.prod returns a float for the empty tail in _index_to_edge_partition)",
+        "chung_lu / dcsbm / HPPM / mean-degree arithmetic is exact (Rat) in the model and binary floating point in the code: the uniform "
+        "draws r are sent as the exact dyadic rationals they are, so `r < q / p` can differ only when r falls between the float and the "
+        "exact quotient (not observed; it would show up as a correspondence failure, never silently); an HPPM tensor entry that "
+        "rounds to exactly 0 or 1 where the exact value does not is counted under float-boundary and skipped",
+        "dcsbm: omega is a non-negative integer numpy array indexed by the group ids, g1 / g2 are dicts on exactly the keys of k1 / k2; "
+        "degrees and sizes are non-negative ints; watts_strogatz: d >= 1",
+        "np.random.choice(others, size=d-1, replace=False) returns d-1 distinct elements of `others` (checked on every recorded draw by "
+        "the model: an inadmissible recorded choice is answered `unmodelled`, which is a correspondence failure)",
     ]
     return finish(ctx, trusted_base=TRUSTED_COMMON + [
         "harness/props/c16.py: RNG recording by monkeypatching (geometric, random.random, random.sample, np.random.random, "
-        "fast_gnp_random_graph), brute-force references (itertools subsets, clique enumeration by adjacency test)"])
+        "np.random.choice, fast_gnp_random_graph, uniform_HSBM as called by uniform_HPPM), brute-force references (itertools subsets, "
+        "clique enumeration by adjacency test, Fraction arithmetic for the HPPM tensor and the mean-degree conversion)"])
 
 
 def replay(ctx, path):
